@@ -2,6 +2,7 @@ package main
 
 import (
 	"fmt"
+	"strings"
 
 	calctok "github.com/pip-services3-gox/pip-services3-expressions-gox/calculator/tokenizers"
 	"github.com/pip-services3-gox/pip-services3-expressions-gox/csv"
@@ -151,6 +152,63 @@ func genC14(g *Gen) {
 			}
 		}
 	})
+	for _, sz := range []int{63, 64, 65, 255, 256, 257, 1000, 4097} {
+		if sz > g.Pick(260, 5000) {
+			continue
+		}
+		for _, unit := range []string{"a", "'", "\"", "é", "😀", "a'b\"", "''", " \n"} {
+			s := []rune(strings.Repeat(unit, sz))[:sz]
+			for _, st := range states {
+				for _, q := range quotes {
+					g.Run("long strings", []Ev{{"op": "codec", "state": st, "s": cpsR(s), "q": int(q)}})
+					if st != "generic" {
+						g.Run("long strings", []Ev{{"op": "read", "state": st, "s": cpsR(s), "q": int(q), "tail": cpsR(tails[st][1])}})
+					}
+				}
+			}
+		}
+	}
+	both := func(gen string, s []rune, only rune) {
+		for _, st := range states {
+			for _, q := range quotes {
+				if only != 0 && q != only {
+					continue
+				}
+				g.Run(gen, []Ev{{"op": "codec", "state": st, "s": cpsR(s), "q": int(q)}})
+				if st != "generic" {
+					g.Run(gen, []Ev{{"op": "read", "state": st, "s": cpsR(s), "q": int(q), "tail": cpsR(tails[st][1])}})
+				}
+			}
+		}
+	}
+	// rare code points inside the string
+	for _, c := range rareRunes {
+		both("rare code points", []rune{c}, 0)
+		both("rare code points", []rune{'a', c, 'b'}, 0)
+		both("rare code points", []rune{c, '\'', '"', c}, 0)
+	}
+	// a quote character at every offset of a long string; quote-heavy strings whose encoded length crosses a power of two
+	for pos := 0; pos <= g.Pick(300, 1100); pos++ {
+		q := quotes[pos%2]
+		s := append([]rune(strings.Repeat("a", pos)), q, 'b')
+		both("a quote at every offset", s, q)
+		if pos%5 == 0 {
+			both("a quote at every offset", append(append([]rune(strings.Repeat("é", pos)), q, q), quotes[1-pos%2]), q)
+		}
+	}
+	for L := 100; L <= g.Pick(280, 1100); L += 3 {
+		for _, k := range []int{1, L / 5, L / 2, L - 1, L} {
+			q := quotes[(L+k)%2]
+			s := make([]rune, L)
+			for i := range s {
+				s[i] = 'a'
+			}
+			for j := 0; j < k; j++ { // k quote characters spread evenly
+				s[j*L/k] = q
+			}
+			both("quote-heavy long strings", s, q)
+		}
+	}
 	// random Unicode strings, other quote characters
 	r := g.Rand()
 	n := g.Pick(3000, 150000)
